@@ -26,8 +26,10 @@ def observable(line):
     return ' '.join(f'{k}={kv.get(k)}' for k in ('end', 'alive_after', 'shutdown_ok', 'request_completed', 'out', 'calls', 'res'))
 
 
-def variants(r, role, framing, chunks, quick):
+def variants(r, role, framing, chunks, quick, lead=()):
     toks = fg.tokens(r, role, chunks)
+    if role == 'client':
+        toks = list(lead) + fg.with_drop(r, toks)
     base = f'{role} {framing} 000 ' + ' '.join(toks)
     vs = [(f'{role} {framing} 322 ' + ' '.join(toks), 'max')]
     vs.append((f'{role} {framing} {r.choice(ALL_LEVELS)} ' + ' '.join(toks), 'random-level'))
@@ -59,11 +61,12 @@ def run(ctx):
         while len(groups) < n:
             role = r.choice(['server', 'client'])
             framing = r.choice(['tcp', 'rtu'])
-            data, desc = fg.stream(r, role, framing)
+            fc, lead = fg.client_request(r) if role == 'client' else (3, [])
+            data, desc = fg.stream(r, role, framing, reply_fc=fc)
             chunks = fg.chunk(r, data, style=r.choice(['rand', 'rand', 'header', 'all', 'edge', 'bytes'] if len(data) < 40 else ['rand', 'rand', 'header', 'all', 'edge']))
             if not chunks:
                 continue
-            groups.append(variants(r, role, framing, chunks, ctx.quick()))
+            groups.append(variants(r, role, framing, chunks, ctx.quick(), lead))
     lines = []
     for base, vs in groups:
         lines.append(base)
